@@ -1,4 +1,109 @@
-import IsoDT.Model.TimePoint
+/-
+  C05 — Month and year arithmetic follows calendar rules with end-of-period clamping.
+
+  `specMonthStep` is the calendar rule for one month (adjacent month; same day, or the month's
+  last day if shorter).  `Model.addMonths` / `Model.addYears` mirror `TimePoint.add_months` and
+  the year branch of `TimePoint.__add__`.
+-/
+import IsoDT.Lemmas.Nominal
+
 namespace IsoDT.Props.C05
-theorem placeholder : (1 : Nat) = 1 := rfl
+open IsoDT IsoDT.Model IsoDT.Lemmas
+open IsoDT.Spec (Date TZ TP)
+
+/-- One iteration of the `add_months` loop is the calendar rule: it lands in the adjacent month
+    (month index ± 1), on the same day-of-month or on that month's last day if it is shorter,
+    and always on a real date of the mode (the month length is the target year's own). -/
+theorem C05_month_step (m : Mode) (fwd : Bool) (y mo d : Int) (h : Spec.ValidCal m y mo d) :
+    monthStep m fwd (y, mo, d) = specMonthStep m fwd (y, mo, d) ∧
+    Spec.ValidCal m (specMonthStep m fwd (y, mo, d)).1 (specMonthStep m fwd (y, mo, d)).2.1
+      (specMonthStep m fwd (y, mo, d)).2.2 ∧
+    12 * (specMonthStep m fwd (y, mo, d)).1 + (specMonthStep m fwd (y, mo, d)).2.1 =
+      12 * y + mo + (if fwd then 1 else -1) ∧
+    (specMonthStep m fwd (y, mo, d)).2.2 =
+      min d (Spec.monthLen m (specMonthStep m fwd (y, mo, d)).1 (specMonthStep m fwd (y, mo, d)).2.1) :=
+  ⟨monthStep_eq m fwd (y, mo, d) h, specMonthStep_spec m fwd (y, mo, d) h⟩
+
+/-- `k` iterations land in the month exactly `k` months away, on a real date, never on a later
+    day-of-month; and `k + 1` steps are `k` steps followed by one more. -/
+theorem C05_month_steps (m : Mode) (fwd : Bool) (k : Nat) (y mo d : Int) (h : Spec.ValidCal m y mo d) :
+    monthSteps m fwd k (y, mo, d) = specMonthSteps m fwd k (y, mo, d) ∧
+    Spec.ValidCal m (specMonthSteps m fwd k (y, mo, d)).1 (specMonthSteps m fwd k (y, mo, d)).2.1
+      (specMonthSteps m fwd k (y, mo, d)).2.2 ∧
+    12 * (specMonthSteps m fwd k (y, mo, d)).1 + (specMonthSteps m fwd k (y, mo, d)).2.1 =
+      12 * y + mo + (if fwd then (k : Int) else -(k : Int)) ∧
+    (specMonthSteps m fwd k (y, mo, d)).2.2 ≤ d ∧
+    specMonthSteps m fwd (k + 1) (y, mo, d) = specMonthStep m fwd (specMonthSteps m fwd k (y, mo, d)) :=
+  ⟨(monthSteps_spec m fwd k (y, mo, d) h).1, (monthSteps_spec m fwd k (y, mo, d) h).2.1,
+   (monthSteps_spec m fwd k (y, mo, d) h).2.2.1, (monthSteps_spec m fwd k (y, mo, d) h).2.2.2,
+   specMonthSteps_succ' m fwd k (y, mo, d)⟩
+
+/-- **C05 (months)**: `add_months(n)` on a point in any representation: in calendar form the
+    result is the input moved by `|n|` single clamping steps; ordinal and week dates go through
+    their calendar form and back; time of day, offset and representation are kept and the result
+    is a valid date of the mode. -/
+theorem C05_add_months (m : Mode) (p : TP) (n : Int) (hn : n ≠ 0) (hp : p.Strict m) :
+    ∃ y mo d q, convert m 0 p.date = some (.cal y mo d) ∧ Spec.ValidCal m y mo d ∧
+      addMonths m p n = some q ∧
+      convert m 0 q.date = some (.cal (specMonthSteps m (decide (n > 0)) n.natAbs (y, mo, d)).1
+        (specMonthSteps m (decide (n > 0)) n.natAbs (y, mo, d)).2.1
+        (specMonthSteps m (decide (n > 0)) n.natAbs (y, mo, d)).2.2) ∧
+      q.Strict m ∧ q.date.rep = p.date.rep ∧ q.tz = p.tz ∧ q.hh = p.hh ∧ q.mi = p.mi ∧ q.ss = p.ss :=
+  addMonths_spec m p n hn hp
+
+theorem C05_add_zero_months (m : Mode) (p : TP) : addMonths m p 0 = some p := addMonths_zero m p
+
+/-- **C05 (years)**: adding `n` years keeps month and day (29 Feb → 28 Feb in a common year), the
+    ordinal day (366 → 365) or the ISO week and weekday (week 53 → the target year's last week),
+    according to the representation; everything else is kept and the result is valid. -/
+theorem C05_add_years (m : Mode) (p : TP) (n : Int) (hp : p.Strict m) :
+    (addYears m p n).Strict m ∧ (addYears m p n).date.rep = p.date.rep ∧ (addYears m p n).tz = p.tz ∧
+    (addYears m p n).hh = p.hh ∧ (addYears m p n).mi = p.mi ∧ (addYears m p n).ss = p.ss ∧
+    (addYears m p n).date =
+      match p.date with
+      | .cal y mo d => .cal (y + n) mo (min d (Spec.monthLen m (y + n) mo))
+      | .ord y doy => .ord (y + n) (min doy (Spec.yearLen m (y + n)))
+      | .week y w d => .week (y + n) (min w (Spec.weeksInYear m (y + n))) d :=
+  addYears_spec m p n hp
+
+/-- A mixed duration applies its exact part first, then months, then years. -/
+theorem C05_order (m : Mode) (p : TP) (y mo d h mi s : Int) :
+    addDur m p (.units y mo d h mi s) =
+      (addUnits m p d h mi s).bind fun p1 => (addMonths m p1 mo).bind fun p2 => some (addYears m p2 y) := by
+  simp only [addDur, Dur.toDays, Option.bind_eq_bind, Option.pure_def]
+
+/-- **C05 (validity)**: `p + d` for any duration (nominal, exact or mixed, either sign) of a valid
+    point is defined, is a valid point of the mode with `0 ≤ h < 24`, in `p`'s representation and
+    offset, and its time of day is the time of day after the exact part alone. -/
+theorem C05_add_valid (m : Mode) (p : TP) (y mo d h mi s : Int) (hv : p.Valid m) :
+    ∃ p1 q, addUnits m p d h mi s = some p1 ∧ addDur m p (.units y mo d h mi s) = some q ∧
+      q.Strict m ∧ q.date.rep = p.date.rep ∧ q.tz = p.tz ∧ q.hh = p1.hh ∧ q.mi = p1.mi ∧ q.ss = p1.ss := by
+  obtain ⟨p1, e1, g1⟩ := addUnits_spec m p d h mi s hv
+  rw [C05_order, e1, Option.bind_some]
+  by_cases c : mo = 0
+  · subst c
+    rw [addMonths_zero, Option.bind_some]
+    obtain ⟨a1, a2, a3, a4, a5, a6, _⟩ := addYears_spec m p1 y g1.strict
+    exact ⟨p1, _, rfl, rfl, a1, by rw [a2, g1.rep], by rw [a3, g1.tz], a4, a5, a6⟩
+  · obtain ⟨_, _, _, p2, _, _, e2, _, s2, r2, t2, hh2, mi2, ss2⟩ := addMonths_spec m p1 mo c g1.strict
+    rw [e2, Option.bind_some]
+    obtain ⟨a1, a2, a3, a4, a5, a6, _⟩ := addYears_spec m p2 y s2
+    exact ⟨p1, _, rfl, rfl, a1, by rw [a2, r2, g1.rep], by rw [a3, t2, g1.tz], by rw [a4, hh2],
+      by rw [a5, mi2], by rw [a6, ss2]⟩
+
+/-! ## Non-vacuity: the clamps of the statement -/
+
+example : addDur .greg ⟨.cal 2001 3 31, 1, 2, 3, ⟨0, 0⟩⟩ (.units 0 1 0 0 0 0) =
+    some ⟨.cal 2001 4 30, 1, 2, 3, ⟨0, 0⟩⟩ := by decide +kernel
+example : addDur .greg ⟨.cal 2000 2 29, 0, 0, 0, ⟨0, 0⟩⟩ (.units 1 0 0 0 0 0) =
+    some ⟨.cal 2001 2 28, 0, 0, 0, ⟨0, 0⟩⟩ := by decide +kernel
+example : addDur .greg ⟨.ord 2000 366, 0, 0, 0, ⟨0, 0⟩⟩ (.units 1 0 0 0 0 0) =
+    some ⟨.ord 2001 365, 0, 0, 0, ⟨0, 0⟩⟩ := by decide +kernel
+example : addDur .greg ⟨.week 2020 53 7, 0, 0, 0, ⟨0, 0⟩⟩ (.units 1 0 0 0 0 0) =
+    some ⟨.week 2021 52 7, 0, 0, 0, ⟨0, 0⟩⟩ := by decide +kernel
+example : addDur .greg ⟨.cal 2019 12 31, 0, 0, 0, ⟨0, 0⟩⟩ (.units 0 2 0 0 0 0) =
+    some ⟨.cal 2020 2 29, 0, 0, 0, ⟨0, 0⟩⟩ := by decide +kernel
+example : addDur .d360 ⟨.cal 2001 1 30, 0, 0, 0, ⟨0, 0⟩⟩ (.units 0 1 0 0 0 0) =
+    some ⟨.cal 2001 2 30, 0, 0, 0, ⟨0, 0⟩⟩ := by decide +kernel
+
 end IsoDT.Props.C05
